@@ -8,4 +8,4 @@ Extraction "extracted/model_c19.ml" Md5.md5 Login.login_block Login.login_calcul
   Login.raw_login_up Login.raw_login_down Login.raw_server Login.raw_client_accepts
   LoginGlue.srv_version_reply LoginGlue.srv_version_matches LoginGlue.srv_version_nak LoginGlue.srv_dns_login LoginGlue.srv_login_accepts LoginGlue.u32_of_Z LoginGlue.int_of_u32
   LoginGlue.cli_version LoginGlue.cli_payload_defined LoginGlue.cli_dns_login LoginGlue.cli_raw_login LoginGlue.cli_raw_accepts
-  Startup.pw_buffer Startup.prompt_line Startup.startup_password Startup.clamp_maxlen Startup.startup_maxlen.
+  Startup.pw_buffer Startup.prompt_line Startup.startup_password Startup.clamp_maxlen Startup.startup_maxlen Startup.csettings_of Startup.fragsize_accepted.
